@@ -50,6 +50,8 @@ def encapsulation(base, chk, fname):
 
 def run(chk):
     prog, base = setup(chk)
+    from .common import state_shape
+    state_shape(chk, prog)
     chk.bounds = ["one inductive step per exported operation from arbitrary valid inputs (symbolic coordinates / abstract group elements) and arbitrary receivers (zero value, valid point, aliased); multi-scalar term counts n <= 2 (quick) / 4 (thorough)"]
     chk.outside = ["as C02 (completeness paper step), n above the bound"]
     chk.assumptions = ["the invariant 'valid point' is inductive: every exported mutator of *Point is covered (list computed from the SSA)"]
